@@ -183,7 +183,7 @@ def run_check(prop, tier, seed, out=sys.stdout):
         if v['class_key'] in reported:
             continue
         case = v.get('case') or r.get('case')
-        if len(reported) < 6:
+        if len(reported) < 4:
             path, note = minimise_and_verify(prop, case, v, shadow_dir)
         else:
             # many distinct classes: report the rest as found
@@ -269,7 +269,9 @@ def minimise_and_verify(prop, case, v, shadow_dir):
     """Shrink in a fresh interpreter, replay the result in another one."""
     hs = int(case.get('hashseed', 0))
     job = {'check': prop, 'kind': 'shrink', 'case': case,
-           'class_key': v['class_key'], 'budget': 300, 'run_timeout': 900}
+           'class_key': v['class_key'],
+           'budget': getattr(importlib.import_module('checks.' + prop.lower()),
+                             'SHRINK_BUDGET', 300), 'run_timeout': 900}
     res, err = call_worker(job, shadow_dir, hs, 960)
     note = ''
     final = case
